@@ -54,7 +54,7 @@ theorem C04_standard_table (ht : HandType) (hl : ht.lookup = .standard) (a b : L
   obtain ⟨ra, hpa, _, hma⟩ := signature_mem ha
   obtain ⟨rb, hpb, _, hmb⟩ := signature_mem hb
   exact accept_of_check Tables.build .standard _ (tbl_eq _) standardKey categoryLabel signatures5
-    standard_table_ok ht hl a b (Or.inl rfl) (Or.inl rfl)
+    standard_table_ok ht hl a b ha.allKnown hb.allKnown (Or.inl rfl) (Or.inl rfl)
     ra hpa hma (standardKey_perm hpa _) rb hpb hmb (standardKey_perm hpb _)
 
 /-- `StandardHighHand`: `a < b` exactly when the rules rank `a` below `b`; `a == b` exactly when they tie -/
@@ -130,7 +130,7 @@ theorem C04_short_deck_table (a b : List Card) (ha : FiveCards a) (hb : FiveCard
   obtain ⟨ra, hpa, hma⟩ := short_mem ha hsa
   obtain ⟨rb, hpb, hmb⟩ := short_mem hb hsb
   exact accept_of_check Tables.build .shortDeck _ (tbl_eq _) shortDeckKey shortDeckLabel shortDeckSigs
-    shortDeck_table_ok .shortDeck rfl a b (Or.inl rfl) (Or.inl rfl)
+    shortDeck_table_ok .shortDeck rfl a b ha.allKnown hb.allKnown (Or.inl rfl) (Or.inl rfl)
     ra hpa hma (shortDeckKey_perm hpa _) rb hpb hmb (shortDeckKey_perm hpb _)
 
 /-- … and five distinct cards with a rank below the six are not a short-deck hand -/
@@ -155,7 +155,7 @@ theorem C04_regular_low_table (a b : List Card) (ha : FiveCards a) (hb : FiveCar
   obtain ⟨ra, hpa, _, hma⟩ := signature_mem ha
   obtain ⟨rb, hpb, _, hmb⟩ := signature_mem hb
   exact accept_of_check Tables.build .regular _ (tbl_eq _) regularLowKey regularLowLabel signatures5
-    regular_table_ok .regularLow rfl a b (Or.inl rfl) (Or.inl rfl)
+    regular_table_ok .regularLow rfl a b ha.allKnown hb.allKnown (Or.inl rfl) (Or.inl rfl)
     ra hpa hma (regularLowKey_perm hpa _) rb hpb hmb (regularLowKey_perm hpb _)
 
 /-! ### eight-or-better low -/
@@ -184,7 +184,7 @@ theorem C04_eight_table (ht : HandType) (hl : ht.lookup = .eightOrBetter) (a b :
     unfold eightSigs; rw [List.mem_filter]; exact ⟨hmb, (qualifies_iff hpb hsb).2 hqb⟩
   obtain ⟨x, y, hx, hy, _, h1, h2⟩ :=
     accept_of_check Tables.build .eightOrBetter _ (tbl_eq _) eightOrBetterKey noLabel eightSigs
-      eight_table_ok ht hl a b (Or.inl rfl) (Or.inl rfl)
+      eight_table_ok ht hl a b ha.allKnown hb.allKnown (Or.inl rfl) (Or.inl rfl)
       ra hpa hma' (eightOrBetterKey_perm hpa _) rb hpb hmb' (eightOrBetterKey_perm hpb _)
   exact ⟨x, y, hx, hy, h1, h2⟩
 
@@ -210,7 +210,11 @@ structure RainbowCards (cs : List Card) : Prop where
   pos : 1 ≤ cs.length
   le4 : cs.length ≤ 4
   known : ∀ c ∈ cs, c.rank < 13
+  suits : ∀ c ∈ cs, c.suit < 4
   rainbow : areRainbow cs = true
+
+theorem RainbowCards.allKnown {cs : List Card} (h : RainbowCards cs) : cs.all Card.known = true :=
+  all_known_of_lt fun c hc => ⟨h.known c hc, h.suits c hc⟩
 
 theorem rainbow_sig {cs : List Card} (h : RainbowCards cs) :
     ∃ rs : List Rank, rs.Perm (cs.map (·.rank)) ∧ rs.Pairwise (· ≤ ·) ∧ (rs, areSuited cs) ∈ rainbowSigs := by
@@ -269,13 +273,13 @@ theorem C04_badugi_table (ht : HandType) (value : Rank → Nat)
   rcases hcase with ⟨rfl, rfl⟩ | ⟨rfl, rfl⟩
   · obtain ⟨x, y, hx, hy, _, h1, h2⟩ :=
       accept_of_check Tables.build .badugi _ (tbl_eq _) (badugiKey valueLow) noLabel badugiSigs
-        badugi_table_ok .badugi rfl a b
+        badugi_table_ok .badugi rfl a b ha.allKnown hb.allKnown
         (Or.inr ha.rainbow) (Or.inr hb.rainbow) ra hpa hma' (badugiKey_perm valueLow hpa _)
         rb hpb hmb' (badugiKey_perm valueLow hpb _)
     exact ⟨x, y, hx, hy, h1, h2⟩
   · obtain ⟨x, y, hx, hy, _, h1, h2⟩ :=
       accept_of_check Tables.build .standardBadugi _ (tbl_eq _) (badugiKey valueHigh) noLabel badugiSigs
-        standardBadugi_table_ok .standardBadugi rfl a b
+        standardBadugi_table_ok .standardBadugi rfl a b ha.allKnown hb.allKnown
         (Or.inr ha.rainbow) (Or.inr hb.rainbow) ra hpa hma' (badugiKey_perm valueHigh hpa _)
         rb hpb hmb' (badugiKey_perm valueHigh hpb _)
     exact ⟨x, y, hx, hy, h1, h2⟩
@@ -320,7 +324,8 @@ theorem kuhn_sig (c : Card) (hk : c.rank < 13) :
   exact ⟨Nat.zero_le _, by simpa using hk⟩
 
 /-- **KuhnPokerHand**: a jack, queen or king alone is a hand; J < Q < K -/
-theorem C04_kuhn_table (c d : Card) (hc : 10 ≤ c.rank ∧ c.rank < 13) (hd : 10 ≤ d.rank ∧ d.rank < 13) :
+theorem C04_kuhn_table (c d : Card) (hc : 10 ≤ c.rank ∧ c.rank < 13) (hd : 10 ≤ d.rank ∧ d.rank < 13)
+    (hcs : c.suit < 4) (hds : d.suit < 4) :
     ∃ x y, mkHand Tables.build .kuhn [c] = .ok x ∧ mkHand Tables.build .kuhn [d] = .ok y ∧
       (x.entry.index < y.entry.index ↔ c.rank < d.rank) ∧
       (x.entry.index = y.entry.index ↔ c.rank = d.rank) := by
@@ -333,6 +338,8 @@ theorem C04_kuhn_table (c d : Card) (hc : 10 ≤ c.rank ∧ c.rank < 13) (hd : 1
   obtain ⟨x, y, hx, hy, _, h1, h2⟩ :=
     accept_of_check Tables.build .kuhn _ (tbl_eq _) kuhnKey noLabel kuhnSigs
       kuhn_table_ok .kuhn rfl [c] [d]
+      (all_known_of_lt (by intro x hx; simp only [List.mem_singleton] at hx; subst hx; exact ⟨hc.2, hcs⟩))
+      (all_known_of_lt (by intro x hx; simp only [List.mem_singleton] at hx; subst hx; exact ⟨hd.2, hds⟩))
       (Or.inl rfl) (Or.inl rfl) [c.rank] (List.Perm.refl _) hmc rfl [d.rank] (List.Perm.refl _) hmd rfl
   refine ⟨x, y, hx, hy, ?_, ?_⟩
   · rw [h1]; simp [kuhnKey, valueLow, lexLt]
